@@ -42,10 +42,18 @@ fn run(conv: &str, a: &[i128]) -> String {
             format!("OK {s} {n}")
         }
         "st_to_inst" => {
-            if g(0) < 0 || g(1) >= 1_000_000_000 {
-                return "BADINPUT SystemTime before epoch".into();
+            if g(1) >= 1_000_000_000 {
+                return "BADINPUT SystemTime nanos".into();
             }
-            let t = SystemTime::UNIX_EPOCH + StdDuration::new(g(0) as u64, g(1) as u32);
+            // (tv_sec, tv_nsec) with tv_sec < 0 is a time before the epoch: epoch - |tv_sec| s + tv_nsec ns
+            let t = if g(0) >= 0 {
+                SystemTime::UNIX_EPOCH + StdDuration::new(g(0) as u64, g(1) as u32)
+            } else {
+                let Some(t) = SystemTime::UNIX_EPOCH.checked_sub(StdDuration::new((-g(0)) as u64, 0)) else {
+                    return "BADINPUT SystemTime out of range".into();
+                };
+                t + StdDuration::new(0, g(1) as u32)
+            };
             let i: Instant = t.into();
             let (s, n) = instant_fields(&i);
             format!("OK {s} {n}")
